@@ -42,6 +42,7 @@ type maskSpec struct {
 	Mark     bool          `json:"mark,omitempty"`   // applied_field m<i> = "y"
 	Metric   bool          `json:"metric,omitempty"` // metric_name vm<i>
 	Rules    []ruleSetSpec `json:"match_rules,omitempty"`
+	DoIfT    string        `json:"do_if_t,omitempty"` // do_if: the mask is used only for events whose field t equals this string
 }
 
 type cfgSpec struct {
@@ -96,6 +97,9 @@ func (c cfgSpec) configJSON() string {
 		}
 		if len(m.Rules) > 0 {
 			mm["match_rules"] = m.Rules
+		}
+		if m.DoIfT != "" {
+			mm["do_if"] = map[string]any{"op": "equal", "field": "t", "values": []string{m.DoIfT}}
 		}
 		masks = append(masks, mm)
 	}
@@ -305,6 +309,7 @@ type cconf struct {
 	ign, proc   [][]string
 	crossPrefix bool
 	leafCache   map[string]*leafRes
+	inactive  uint8 // masks whose do_if does not hold for the document being compared
 }
 
 func splitPaths(l []string) [][]string {
@@ -387,6 +392,9 @@ func compile(spec cfgSpec) *cconf {
 // a listed field covers everything nested in it).
 func (c *cconf) processed(i int, path []string) bool {
 	m := c.masks[i]
+	if c.inactive&(1<<i) != 0 {
+		return false // the mask's do_if does not hold for this event
+	}
 	switch {
 	case len(m.ign) > 0:
 		return !hasPrefixPath(m.ign, path)
@@ -784,6 +792,14 @@ func (ck *checker) check(in *inst, doc *V, docStr string, withMetrics bool) {
 	r.Case()
 	tc := tcase{Cfg: in.c.spec, Doc: docStr, Prev: in.prev}
 	in.prev = docStr
+	in.c.inactive = 0
+	for i, m := range in.c.spec.Masks {
+		if m.DoIfT != "" {
+			if t := doc.Get("t"); t == nil || t.Kind != Str || t.S != m.DoIfT {
+				in.c.inactive |= 1 << i
+			}
+		}
+	}
 	ev, err := vplug.NewEvent(docStr)
 	if err != nil {
 		panic("bad document " + docStr + ": " + err.Error())
@@ -1006,7 +1022,14 @@ func ruleSets() [][]ruleSetSpec {
 	ncb := ruleSpec{Values: []string{"b"}, Mode: "contains", Invert: true}
 	s1 := ruleSpec{Values: []string{"1", "éa"}, Mode: "suffix"}
 	pl := ruleSpec{Values: []string{"ab", "b"}, Mode: "prefix"}
+	// inverted rules whose patterns are longer than some of the values they are asked about
+	npl := ruleSpec{Values: []string{"abb", "bab"}, Mode: "prefix", Invert: true}
+	nsl := ruleSpec{Values: []string{"ab1", "b1"}, Mode: "suffix", Invert: true}
+	ncl := ruleSpec{Values: []string{"aba"}, Mode: "contains", Invert: true}
 	return [][]ruleSetSpec{
+		{{Cond: "and", Rules: []ruleSpec{npl}}},
+		{{Cond: "and", Rules: []ruleSpec{nsl}}},
+		{{Cond: "or", Rules: []ruleSpec{ncl, pa}}},
 		{{Cond: "and", Rules: []ruleSpec{pa}}},
 		{{Cond: "and", Rules: []ruleSpec{ncb}}},
 		{{Cond: "and", Rules: []ruleSpec{s1}}},
@@ -1194,6 +1217,45 @@ func TestVerif(t *testing.T) {
 						}
 					}
 				}
+			}
+		}
+	}
+
+	// ---- part D: where the per-mask options sit in the list (own metric, own mark, do_if on either mask, independently)
+	{
+		var docs []*V
+		for _, tv := range []*V{nil, S("m"), S("x")} {
+			for _, sv := range []string{"a1 b2", "zz", "9"} {
+				d := O()
+				if tv != nil {
+					d.Fields = append(d.Fields, F("t", tv))
+				}
+				d.Fields = append(d.Fields, F("s", S(sv)), F("n", O(F("u", S("aa"+sv)))))
+				docs = append(docs, d)
+			}
+		}
+		base := []maskSpec{{Re: `(a)`, Groups: []int{1}}, {Re: `(\d)`, Groups: []int{1}, Word: "X"}}
+		for bits := 0; bits < 64; bits++ {
+			mine := r.Mine(idx)
+			idx++
+			if !mine {
+				continue
+			}
+			spec := cfgSpec{Mark: bits&1 == 0}
+			for i, m := range base {
+				b := bits >> (3 * i)
+				m.Metric, m.Mark = b&1 != 0, b&2 != 0
+				if b&4 != 0 {
+					m.DoIfT = "m"
+				}
+				spec.Masks = append(spec.Masks, m)
+			}
+			in := ck.build(spec)
+			if in == nil {
+				continue
+			}
+			for _, d := range docs {
+				ck.check(in, d, d.String(), true)
 			}
 		}
 	}
